@@ -260,9 +260,12 @@ def _dumps_kvn(data, **kwargs):
     content = []
     for i, data in enumerate(data):
 
+        # All dates are written in the time system declared in the metadata
+        scale = data.start.scale.name
+
         extras = {
             "START_TIME": "{:{}}".format(data.start, DATE_FMT_DEFAULT),
-            "STOP_TIME": "{:{}}".format(data.stop, DATE_FMT_DEFAULT),
+            "STOP_TIME": "{:{}}".format(data.stop.change_scale(scale), DATE_FMT_DEFAULT),
             "INTERPOLATION": data.method.upper(),
         }
         if data.method != data.LINEAR:
@@ -277,7 +280,7 @@ def _dumps_kvn(data, **kwargs):
             orb = orb.copy(form="cartesian")
             text.append(
                 "{date:{dfmt}} {orb[0]:{fmt}} {orb[1]:{fmt}} {orb[2]:{fmt}} {orb[3]:{fmt}} {orb[4]:{fmt}} {orb[5]:{fmt}}".format(
-                    date=orb.date,
+                    date=orb.date.change_scale(scale),
                     orb=orb.base / units.km,
                     fmt=" 10f",
                     dfmt=DATE_FMT_DEFAULT,
@@ -291,7 +294,9 @@ def _dumps_kvn(data, **kwargs):
                     cov_text.append("")
 
                 cov_text.append(
-                    "EPOCH = {date:{dfmt}}".format(date=orb.date, dfmt=DATE_FMT_DEFAULT)
+                    "EPOCH = {date:{dfmt}}".format(
+                        date=orb.date.change_scale(scale), dfmt=DATE_FMT_DEFAULT
+                    )
                 )
 
                 if orb.cov.frame != orb.frame:
@@ -326,9 +331,12 @@ def _dumps_xml(data, **kwargs):
     for i, data in enumerate(data):
         segment = ET.SubElement(body, "segment")
 
+        # All dates are written in the time system declared in the metadata
+        scale = data.start.scale.name
+
         extras = {
             "START_TIME": data.start.strftime(DATE_FMT_DEFAULT),
-            "STOP_TIME": data.stop.strftime(DATE_FMT_DEFAULT),
+            "STOP_TIME": data.stop.change_scale(scale).strftime(DATE_FMT_DEFAULT),
             "INTERPOLATION": data.method.upper(),
         }
         if data.method != data.LINEAR:
@@ -342,7 +350,7 @@ def _dumps_xml(data, **kwargs):
             el = el.copy(form="cartesian")
             statevector = ET.SubElement(data_tag, "stateVector")
             epoch = ET.SubElement(statevector, "EPOCH")
-            epoch.text = el.date.strftime(DATE_FMT_DEFAULT)
+            epoch.text = el.date.change_scale(scale).strftime(DATE_FMT_DEFAULT)
 
             elems = {
                 "X": "x",
@@ -364,7 +372,7 @@ def _dumps_xml(data, **kwargs):
                 cov = ET.SubElement(data_tag, "covarianceMatrix")
 
                 cov_date = ET.SubElement(cov, "EPOCH")
-                cov_date.text = el.date.strftime(DATE_FMT_DEFAULT)
+                cov_date.text = el.date.change_scale(scale).strftime(DATE_FMT_DEFAULT)
 
                 if el.cov.frame != el.frame:
                     frame = el.cov.frame
